@@ -64,6 +64,22 @@ func (c09) Batches(tier string, seed int64) int {
 var symbolTok = map[string]bool{":": true, "=": true, ">": true, "<": true, "+": true, "~": true, "^": true, "(": true, ")": true, "[": true, "]": true, "{": true, "}": true}
 var keywordTok = map[string]bool{"AND": true, "OR": true, "NOT": true, "TO": true}
 
+// delimited: a quoted phrase or a regexp token, which ends at its own closing delimiter.
+func delimited(t string) bool {
+	return len(t) >= 2 && (t[0] == '"' || t[0] == '\'' || t[0] == '/') && t[len(t)-1] == t[0]
+}
+
+// adjacentOK reports whether two tokens stay two tokens when written with nothing between
+// them: one of them is a symbol, or one of them is delimited (a word ends at a quote or a
+// slash, and whatever follows a closing delimiter starts a new token). Never next to '-' (it
+// would join a number or a word) and never after a token ending in a backslash.
+func adjacentOK(l, t string) bool {
+	if l == "-" || t == "-" || strings.HasSuffix(l, `\`) {
+		return false
+	}
+	return symbolTok[l] || symbolTok[t] || delimited(l) || delimited(t)
+}
+
 func (p c09) RunBatch(ctx *core.Ctx, batch int) {
 	mon.Install()
 	defer monFlush(ctx)
@@ -107,7 +123,7 @@ var c09Units = [][]string{
 	{"a"}, {"+", "a"}, {"-", "a"}, {"(", "a", ")"}, {"(", "+", "a", ")"}, {"a", ":", "1"}, {"+", "a", ":", "1"}, {"-", "a", ":", "b"},
 	{"a", ":", "b", "^", "2"}, {"a", "~"}, {"a", "~", "2"}, {"NOT", "a"}, {"f", ":", "[", "1", "TO", "5", "]"}, {"f", ":", "{", "a", "TO", "*", "}"},
 	{"n", ":", ">", "=", "4"}, {"n", ":", "<", "4"}, {"x", ":", "(", "p", "OR", "q", ")"}, {`"q s"`}, {"f", ":", `"q"`}, {"/re/"}, {"f", ":", "/r e/"},
-	{"(", "(", "a", ")", ")"}, {"+", "(", "a", "OR", "b", ")"}, {"w*"}, {"f", "=", "1"},
+	{"(", "(", "a", ")", ")"}, {"+", "(", "a", "OR", "b", ")"}, {"w*"}, {"f", "=", "1"}, {"'x y'"}, {"f", ":", "'x'"},
 }
 
 // c09Long: chains of 1…400 units (one unit repeated, or a seeded mix; juxtaposed or joined by AND/OR)
@@ -122,7 +138,7 @@ func c09Long(ctx *core.Ctx, k int) {
 		for i, t := range toks {
 			if i > 0 {
 				l := toks[i-1]
-				if !((symbolTok[l] || symbolTok[t]) && l != "-" && t != "-") {
+				if !adjacentOK(l, t) {
 					b.WriteString(" ")
 				}
 			}
@@ -234,13 +250,13 @@ func c09Tokens(ctx *core.Ctx, toks []string, r *rand.Rand) {
 		v := sep + strings.Join(toks, sep) + sep
 		ctx.Case(v, func() { c09Same(ctx, "whitespace", base, v, true) })
 	}
-	// 3. separators removed next to a symbol token (never next to '-', which would merge)
+	// 3. separators removed next to a symbol token or a quoted / regexp token (never next to '-', which would merge)
 	b.Reset()
 	removed := false
 	for i, t := range toks {
 		if i > 0 {
 			l := toks[i-1]
-			if (symbolTok[l] || symbolTok[t]) && l != "-" && t != "-" {
+			if adjacentOK(l, t) {
 				removed = true
 			} else {
 				b.WriteString(" ")
